@@ -37,6 +37,15 @@ const NOFID = uint32(p9p.NOFID)
 var fidPool = []uint32{0, 1, 2, 3, 100, NOFID}
 var errFS = p9p.MessageRerror{Ename: "fs-error"}
 
+// fsErr: what a failing file-system call returns - the context's own error when the request
+// context is already done (a file system that gives up on a flushed / timed-out request).
+func fsErr(ctx context.Context) error {
+	if e := ctx.Err(); e != nil {
+		return e
+	}
+	return errFS
+}
+
 // ---------------------------------------------------------------- tokens, ops
 
 type tok struct {
@@ -60,6 +69,8 @@ type opT struct {
 	names  []string
 	name   string
 	mode   uint8
+	buf    int // read/write buffer: 0 nil, 1 empty (non-nil), 2 sixty-four bytes
+	ctxk   int // request context at call time: 0 live, 1 cancelled, 2 deadline expired
 	toks   [3]tok
 	extra  []tok // further tokens (pair cases: the second operation's calls continue the numbering)
 	result string
@@ -77,21 +88,24 @@ func (o *opT) allToks() sx.S {
 
 func (o *opT) sexp() sx.S {
 	f := func(v uint32) sx.S { return sx.U(uint64(v)) }
+	c := sx.I(int64(o.ctxk)) // trailing: the model ignores it (the session never looks at the context)
 	switch o.kind {
 	case "auth":
-		return sx.L(sx.Sym("auth"), f(o.fid), o.allToks())
+		return sx.L(sx.Sym("auth"), f(o.fid), o.allToks(), c)
 	case "attach":
-		return sx.L(sx.Sym("attach"), f(o.fid), f(o.fid2), o.allToks())
+		return sx.L(sx.Sym("attach"), f(o.fid), f(o.fid2), o.allToks(), c)
 	case "walk":
-		return sx.L(sx.Sym("walk"), f(o.fid), f(o.fid2), sx.Strs(o.names), o.allToks())
+		return sx.L(sx.Sym("walk"), f(o.fid), f(o.fid2), sx.Strs(o.names), o.allToks(), c)
 	case "open":
-		return sx.L(sx.Sym("open"), f(o.fid), sx.I(int64(o.mode)), o.allToks())
+		return sx.L(sx.Sym("open"), f(o.fid), sx.I(int64(o.mode)), o.allToks(), c)
 	case "create":
-		return sx.L(sx.Sym("create"), f(o.fid), sx.Str(o.name), sx.I(int64(o.mode)), o.allToks())
+		return sx.L(sx.Sym("create"), f(o.fid), sx.Str(o.name), sx.I(int64(o.mode)), o.allToks(), c)
+	case "read", "write":
+		return sx.L(sx.Sym(o.kind), f(o.fid), sx.I(int64(o.buf)), o.allToks(), c)
 	case "stop":
 		return sx.L(sx.Sym("stop"), o.allToks())
-	default: // read write stat wstat clunk remove
-		return sx.L(sx.Sym(o.kind), f(o.fid), o.allToks())
+	default: // stat wstat clunk remove
+		return sx.L(sx.Sym(o.kind), f(o.fid), o.allToks(), c)
 	}
 }
 
@@ -198,7 +212,7 @@ func (w *world) Attach(ctx context.Context, uname, aname string, af p9p.AuthFile
 	defer w.section()()
 	t, _ := w.use(nil, "attach", -1)
 	if t.fail != 0 {
-		return nil, errFS
+		return nil, fsErr(ctx)
 	}
 	return w.newHandle(t.dir), nil
 }
@@ -213,7 +227,11 @@ type hEnt struct {
 }
 
 func (h *hEnt) Qid() p9p.Qid {
-	q := p9p.Qid{Path: uint64(h.id)}
+	// identity is per entry object, not per qid: two entries in three share the path 7
+	q := p9p.Qid{Path: 7}
+	if h.id%3 == 0 {
+		q.Path = uint64(1000 + h.id)
+	}
 	if h.dir {
 		q.Type = p9p.QTDIR
 	}
@@ -225,7 +243,7 @@ func (h *hEnt) OpenDir(ctx context.Context) (p9p.ReadNext, error) {
 	t, _ := h.w.use(h, "opendir", -1)
 	switch {
 	case t.fail == 1:
-		return nil, errFS
+		return nil, fsErr(ctx)
 	case t.fail >= 2:
 		return nil, nil
 	}
@@ -233,7 +251,7 @@ func (h *hEnt) OpenDir(ctx context.Context) (p9p.ReadNext, error) {
 		defer h.w.section()()
 		t, _ := h.w.use(h, "next", -1)
 		if t.fail != 0 {
-			return nil, errFS
+			return nil, fsErr(ctx)
 		}
 		return nil, nil
 	}, nil
@@ -243,7 +261,7 @@ func (h *hEnt) Walk(ctx context.Context, names ...string) ([]p9p.Qid, p9p.Dirent
 	defer h.w.section()()
 	t, _ := h.w.use(h, "walk", len(names))
 	if t.fail == 1 {
-		return nil, nil, errFS
+		return nil, nil, fsErr(ctx)
 	}
 	nq := t.nq
 	if nq > len(names) {
@@ -264,7 +282,7 @@ func (h *hEnt) Create(ctx context.Context, name string, perm uint32, mode p9p.Fl
 	t, _ := h.w.use(h, "create", -1)
 	switch t.fail {
 	case 1:
-		return nil, nil, errFS
+		return nil, nil, fsErr(ctx)
 	case 2:
 		return nil, nil, nil
 	case 3:
@@ -280,44 +298,46 @@ func (h *hEnt) Open(ctx context.Context, mode p9p.Flag) (p9p.File, error) {
 	t, _ := h.w.use(h, "open", int(mode))
 	switch {
 	case t.fail == 1:
-		return nil, errFS
+		return nil, fsErr(ctx)
 	case t.fail >= 2:
 		return nil, nil
 	}
 	return &hFile{h}, nil
 }
 
-func (h *hEnt) simple(name string) error {
+func (h *hEnt) simple(ctx context.Context, name string) error {
 	defer h.w.section()()
 	t, _ := h.w.use(h, name, -1)
 	if name == "clunk" || name == "remove" {
 		h.w.release(h, name)
 	}
 	if t.fail != 0 {
-		return errFS
+		return fsErr(ctx)
 	}
 	return nil
 }
-func (h *hEnt) Remove(ctx context.Context) error           { return h.simple("remove") }
-func (h *hEnt) Clunk(ctx context.Context) error            { return h.simple("clunk") }
-func (h *hEnt) WStat(ctx context.Context, d p9p.Dir) error { return h.simple("wstat") }
+func (h *hEnt) Remove(ctx context.Context) error           { return h.simple(ctx, "remove") }
+func (h *hEnt) Clunk(ctx context.Context) error            { return h.simple(ctx, "clunk") }
+func (h *hEnt) WStat(ctx context.Context, d p9p.Dir) error { return h.simple(ctx, "wstat") }
 func (h *hEnt) Stat(ctx context.Context) (p9p.Dir, error) {
-	return p9p.Dir{Qid: h.Qid()}, h.simple("stat")
+	return p9p.Dir{Qid: h.Qid()}, h.simple(ctx, "stat")
 }
 
 type hFile struct{ h *hEnt }
 
-func (f *hFile) rw(name string) (int, error) {
+func (f *hFile) rw(ctx context.Context, name string) (int, error) {
 	defer f.h.w.section()()
 	t, _ := f.h.w.use(f.h, name, -1)
 	if t.fail != 0 {
-		return 0, errFS
+		return 0, fsErr(ctx)
 	}
 	return 0, nil
 }
-func (f *hFile) Read(ctx context.Context, p []byte, off int64) (int, error)  { return f.rw("read") }
-func (f *hFile) Write(ctx context.Context, p []byte, off int64) (int, error) { return f.rw("write") }
-func (f *hFile) IOUnit() int                                                 { return 0 }
+func (f *hFile) Read(ctx context.Context, p []byte, off int64) (int, error) { return f.rw(ctx, "read") }
+func (f *hFile) Write(ctx context.Context, p []byte, off int64) (int, error) {
+	return f.rw(ctx, "write")
+}
+func (f *hFile) IOUnit() int { return 0 }
 
 // dummyEnt is what a partial walk returns beside its qids (like ramfs's
 // noHandle): not a resource; the session must not call it.
@@ -331,19 +351,19 @@ func (d dummyEnt) bad(name string) {
 func (d dummyEnt) Qid() p9p.Qid { return p9p.Qid{} }
 func (d dummyEnt) OpenDir(ctx context.Context) (p9p.ReadNext, error) {
 	d.bad("opendir")
-	return nil, errFS
+	return nil, fsErr(ctx)
 }
 func (d dummyEnt) Walk(ctx context.Context, n ...string) ([]p9p.Qid, p9p.Dirent, error) {
 	d.bad("walk")
-	return nil, nil, errFS
+	return nil, nil, fsErr(ctx)
 }
 func (d dummyEnt) Create(ctx context.Context, name string, perm uint32, mode p9p.Flag) (p9p.Dirent, p9p.File, error) {
 	d.bad("create")
-	return nil, nil, errFS
+	return nil, nil, fsErr(ctx)
 }
 func (d dummyEnt) Open(ctx context.Context, mode p9p.Flag) (p9p.File, error) {
 	d.bad("open")
-	return nil, errFS
+	return nil, fsErr(ctx)
 }
 func (d dummyEnt) Remove(ctx context.Context) error           { d.bad("remove"); return errFS }
 func (d dummyEnt) Clunk(ctx context.Context) error            { d.bad("clunk"); return errFS }
@@ -363,7 +383,7 @@ var errTexts = map[string]string{
 	"not a directory": "notdir", "invalid result": "nilres", "fs-error": "fs", "no file open": "nofile",
 	"read prohibited": "noread", "write prohibited": "nowrite", "already open": "isopen",
 	"illegal filename": "badname", "create in non-directory": "crnondir", "no auth": "noauth",
-	"invalid": "invalid",
+	"invalid": "invalid", "context canceled": "fs", "context deadline exceeded": "fs",
 }
 
 func classify(err error) string {
@@ -386,6 +406,23 @@ func classify(err error) string {
 }
 
 func invoke(ctx context.Context, s p9p.Session, o *opT) outcome {
+	switch o.ctxk {
+	case 1:
+		c, cancel := context.WithCancel(ctx)
+		cancel()
+		ctx = c
+	case 2:
+		c, cancel := context.WithDeadline(ctx, time.Unix(1, 0))
+		defer cancel()
+		ctx = c
+	}
+	var rbuf, wbuf []byte
+	switch o.buf {
+	case 1:
+		rbuf, wbuf = []byte{}, []byte{}
+	case 2:
+		rbuf, wbuf = make([]byte, 64), []byte("0123456789abcdef")
+	}
 	switch o.kind {
 	case "auth":
 		_, err := s.Auth(ctx, p9p.Fid(o.fid), "u", "a")
@@ -403,10 +440,10 @@ func invoke(ctx context.Context, s p9p.Session, o *opT) outcome {
 		_, _, err := s.Create(ctx, p9p.Fid(o.fid), o.name, 0644, p9p.Flag(o.mode))
 		return outcome{err: err, n: 0}
 	case "read":
-		_, err := s.Read(ctx, p9p.Fid(o.fid), make([]byte, 64), 0)
+		_, err := s.Read(ctx, p9p.Fid(o.fid), rbuf, 0)
 		return outcome{err: err, n: 0}
 	case "write":
-		_, err := s.Write(ctx, p9p.Fid(o.fid), []byte("x"), 0)
+		_, err := s.Write(ctx, p9p.Fid(o.fid), wbuf, 0)
 		return outcome{err: err, n: 0}
 	case "stat":
 		_, err := s.Stat(ctx, p9p.Fid(o.fid))
@@ -1028,6 +1065,13 @@ func (r *seqRun) genOp(g *prng.R) *opT {
 	for i := range o.toks {
 		o.toks[i] = genTok(g, o.kind, len(o.names))
 	}
+	o.buf = 2
+	if g.Chance(40, 100) {
+		o.buf = g.Intn(2)
+	}
+	if g.Chance(30, 100) {
+		o.ctxk = 1 + g.Intn(2)
+	}
 	return o
 }
 
@@ -1054,7 +1098,7 @@ func runSeq(g *prng.R) *seqRun {
 func tk(fail int, dir bool, nq int) tok { return tok{fail: fail, dir: dir, nq: nq} }
 
 func mk(kind string, fid, fid2 uint32, names []string, name string, mode uint8, ts ...tok) *opT {
-	o := &opT{kind: kind, fid: fid, fid2: fid2, names: names, name: name, mode: mode}
+	o := &opT{kind: kind, fid: fid, fid2: fid2, names: names, name: name, mode: mode, buf: 2}
 	copy(o.toks[:], ts)
 	return o
 }
@@ -1115,18 +1159,33 @@ func grids() [][]*opT {
 		}
 		out = append(out, seq)
 	}
-	for base := 0; base < 256; base += 3 {
+	for base := 0; base < 256; base++ {
 		seq := []*opT{mk("attach", 0, NOFID, nil, "", 0, d)}
-		for m := base; m < base+3 && m < 256; m++ {
+		for m := base; m < base+1; m++ {
 			mode := uint8(m)
 			seq = append(seq,
-				mk("walk", 0, 1, nil, "", 0, d), mk("create", 1, 0, nil, "n", mode, f), mk("read", 1, 0, nil, "", 0), mk("write", 1, 0, nil, "", 0), mk("clunk", 1, 0, nil, "", 0),
+				mk("walk", 0, 1, nil, "", 0, d), mkb("write", 1, m%2), mkb("read", 1, (m+1)%2), mk("create", 1, 0, nil, "n", mode, f), mk("read", 1, 0, nil, "", 0), mk("write", 1, 0, nil, "", 0),
+				mkb("read", 1, m%2), mkb("write", 1, (m+1)%2), mk("clunk", 1, 0, nil, "", 0), mkb("write", 1, m%2),
 				mk("walk", 0, 2, []string{"a"}, "", 0, f), mk("open", 2, 0, nil, "", mode), mk("read", 2, 0, nil, "", 0), mk("write", 2, 0, nil, "", 0), mk("clunk", 2, 0, nil, "", 0),
-				mk("walk", 0, 3, nil, "", 0, d), mk("open", 3, 0, nil, "", mode), mk("read", 3, 0, nil, "", 0), mk("write", 3, 0, nil, "", 0), mk("clunk", 3, 0, nil, "", 0))
+				mk("walk", 0, 3, nil, "", 0, d), mk("open", 3, 0, nil, "", mode), mkb("read", 3, m%2), mkb("write", 3, m%2), mk("read", 3, 0, nil, "", 0), mk("write", 3, 0, nil, "", 0),
+				mkc("clunk", 3, 1+m%2, tk(1, false, 0)), mkc("clunk", 3, 1+m%2, tk(1, false, 0)))
 		}
 		out = append(out, seq)
 	}
 	return out
+}
+
+// mkb: read/write with an empty buffer (0 nil, 1 empty non-nil); mkc: an operation under a
+// request context that is already done (1 cancelled, 2 expired), with the given tokens
+func mkb(kind string, fid uint32, buf int) *opT {
+	o := mk(kind, fid, 0, nil, "", 0)
+	o.buf = buf
+	return o
+}
+func mkc(kind string, fid uint32, ctxk int, ts ...tok) *opT {
+	o := mk(kind, fid, 0, nil, "", 0, ts...)
+	o.ctxk = ctxk
+	return o
 }
 
 func runFixed(ops []*opT) *seqRun {
